@@ -113,6 +113,9 @@ type machine struct {
 	guards       []guard
 	pre          []string // Lean text of each guard condition, "" if not expressible
 	notes        []string
+	externs      []*opParam      // uninterpreted library functions / constants used by the body, in order of first use
+	inhabited    map[string]bool // type variables whose Go zero value is used (`default`)
+	upCtx        string          // Lean text of the context handed upstream when it is not `subscriberCtx` itself
 	stateName    string
 	onSubscribe  string // "" = default
 	onNext       string
@@ -125,10 +128,11 @@ type skipped struct{ name, reason string }
 // ---------------------------------------------------------------- Go types → Lean types
 
 type opCtx struct {
-	fd       *ast.FuncDecl
-	tparams  map[string]*ltype // Go type parameter → Lean type
-	decEqOf  map[string]bool   // Lean type variables that are `comparable`
-	natParam map[string]bool   // integer parameters guarded against negative values
+	fd         *ast.FuncDecl
+	tparams    map[string]*ltype // Go type parameter → Lean type
+	decEqOf    map[string]bool   // Lean type variables that are `comparable`
+	natParam   map[string]bool   // integer parameters guarded against negative values
+	ctxDefault map[string]bool   // context parameters replaced by context.Background() when nil
 }
 
 func typeName(e ast.Expr) string {
@@ -165,6 +169,14 @@ func (oc *opCtx) valueType(e ast.Expr) *ltype {
 		return tErr
 	case "int", "int64":
 		return tInt
+	case "float64":
+		return tVar("φ") // floats are an uninterpreted type; their operations are uninterpreted functions
+	case "time.Duration":
+		return tVar("δ")
+	case "time.Time":
+		return tVar("τ")
+	case "any":
+		return tVar("ι")
 	case "":
 	default:
 		if t, ok := oc.tparams[typeName(e)]; ok {
@@ -182,7 +194,8 @@ func (oc *opCtx) valueType(e ast.Expr) *ltype {
 		if st, ok := m.Value.(*ast.StructType); ok && (st.Fields == nil || len(st.Fields.List) == 0) {
 			return tSet(oc.valueType(m.Key))
 		}
-		skip("map type %s outside the fragment (only map[K]struct{} sets)", src(e))
+		// map with values: the model's association list (last write wins, `Ro.assocSet`)
+		return tMap(oc.valueType(m.Key), oc.valueType(m.Value))
 	}
 	if n, args := indexed(e); n != "" {
 		switch {
@@ -222,7 +235,8 @@ func (oc *opCtx) fnType(ft *ast.FuncType) *userFn {
 				n = 1
 			}
 			for i := 0; i < n; i++ {
-				if typeName(f.Type) == "error" {
+				if typeName(f.Type) == "error" && ft.Results.NumFields() > 1 {
+					// the `(value, err)` idiom: err may be nil
 					u.results = append(u.results, tOption(tErr))
 				} else {
 					u.results = append(u.results, oc.valueType(f.Type))
@@ -266,6 +280,15 @@ func isOperatorBody(fd *ast.FuncDecl) bool {
 	return has
 }
 
+func paramOf(m *machine, name string) *opParam {
+	for _, p := range m.params {
+		if p.name == name {
+			return p
+		}
+	}
+	return nil
+}
+
 func lowerFirst(s string) string { return strings.ToLower(s[:1]) + s[1:] }
 
 // ---------------------------------------------------------------- template recognition
@@ -280,7 +303,7 @@ func translateOp(fd *ast.FuncDecl, file string) (m *machine, reason string) {
 			panic(r)
 		}
 	}()
-	oc := &opCtx{fd: fd, tparams: map[string]*ltype{}, decEqOf: map[string]bool{}, natParam: map[string]bool{}}
+	oc := &opCtx{fd: fd, tparams: map[string]*ltype{}, decEqOf: map[string]bool{}, natParam: map[string]bool{}, ctxDefault: map[string]bool{}}
 	m = &machine{goName: fd.Name.Name, file: file, name: lowerFirst(fd.Name.Name) + "M"}
 
 	// result type: func(Observable[S]) Observable[D]
@@ -343,6 +366,11 @@ func translateOp(fd *ast.FuncDecl, file string) (m *machine, reason string) {
 		skip("empty body")
 	}
 	for _, s := range body[:len(body)-1] {
+		if p := nilCtxDefault(s); p != "" {
+			// `if p == nil { p = context.Background() }`: the parameter is normalised before use
+			oc.ctxDefault[p] = true
+			continue
+		}
 		is, ok := s.(*ast.IfStmt)
 		if !ok || is.Init != nil || is.Else != nil || len(is.Body.List) != 1 || !isPanic(is.Body.List[0]) {
 			skip("constructor statement before `return` is not `if cond { panic(..) }`: %s", src(s))
@@ -388,6 +416,12 @@ func translateOp(fd *ast.FuncDecl, file string) (m *machine, reason string) {
 		}
 	}
 
+	for name := range oc.ctxDefault {
+		if p := paramOf(m, name); p == nil || p.fn != nil || p.t.k != "Ctx" {
+			skip("`if %s == nil { … }` on something that is not a context parameter", name)
+		}
+	}
+
 	// application body: guards, then `return NewUnsafeObservableWithContext(func(subscriberCtx, destination) Teardown {…})`
 	abody := app.Body.List
 	if len(abody) == 0 {
@@ -407,7 +441,7 @@ func translateOp(fd *ast.FuncDecl, file string) (m *machine, reason string) {
 	call, ok := aret.Results[0].(*ast.CallExpr)
 	// the constructor decides only which mutex the subscriber gets (C02: Catalogue table); the
 	// single-source template is the same for the unsafe and the safe constructor
-	if !ok || (calleeName(call) != "NewUnsafeObservableWithContext" && calleeName(call) != "NewObservableWithContext") || len(call.Args) != 1 {
+	if !ok || (calleeName(call) != "NewUnsafeObservableWithContext" && calleeName(call) != "NewObservableWithContext" && calleeName(call) != "NewSafeObservableWithContext") || len(call.Args) != 1 {
 		skip("application function returns %s, not NewUnsafeObservableWithContext(func…)", src(aret.Results[0]))
 	}
 	subFn, ok := call.Args[0].(*ast.FuncLit)
@@ -437,6 +471,29 @@ func translateOp(fd *ast.FuncDecl, file string) (m *machine, reason string) {
 	}
 	sort.Strings(m.decEq)
 	return m, ""
+}
+
+// `if p == nil { p = context.Background() }` → "p"
+func nilCtxDefault(s ast.Stmt) string {
+	is, ok := s.(*ast.IfStmt)
+	if !ok || is.Init != nil || is.Else != nil || len(is.Body.List) != 1 {
+		return ""
+	}
+	be, ok := is.Cond.(*ast.BinaryExpr)
+	if !ok || be.Op != token.EQL {
+		return ""
+	}
+	x, ok1 := be.X.(*ast.Ident)
+	y, ok2 := be.Y.(*ast.Ident)
+	as, ok3 := is.Body.List[0].(*ast.AssignStmt)
+	if !ok1 || !ok2 || !ok3 || y.Name != "nil" || as.Tok != token.ASSIGN || len(as.Lhs) != 1 || len(as.Rhs) != 1 {
+		return ""
+	}
+	l, ok := as.Lhs[0].(*ast.Ident)
+	if !ok || l.Name != x.Name || src(as.Rhs[0]) != "context.Background()" {
+		return ""
+	}
+	return x.Name
 }
 
 func isPanic(s ast.Stmt) bool {
@@ -488,7 +545,7 @@ func opgenLean(ms []*machine, sk []skipped) string {
 	sb.WriteString("-- GENERATED by go/extract (opgen.go) from the Go source of the repository under check. Do not edit.\n")
 	sb.WriteString("-- One `Machine` per single-source template operator, translated statement by statement;\n")
 	sb.WriteString("-- proved equal to the hand-written machines in RoProps/C04gen.lean. See docs/opgen.md.\n")
-	sb.WriteString("import RoModel.Machine\nset_option linter.unusedVariables false\nnamespace RoGen.Ops\nopen Ro\nvariable {α β κ : Type}\n")
+	sb.WriteString("import RoModel.Ops.Transform\nset_option linter.unusedVariables false\nnamespace RoGen.Ops\nopen Ro\nvariable {α β κ φ δ τ ι : Type}\n")
 	for _, m := range ms {
 		sb.WriteString("\n-- @op " + m.goName + "\n")
 		sb.WriteString(m.lean())
@@ -551,13 +608,25 @@ func (m *machine) lean() string {
 		sts = append(sts, c.t)
 	}
 	sig := "def " + m.name
+	binders := ""
 	for _, v := range m.decEq {
-		sig += " [DecidableEq " + v + "]"
+		binders += " [DecidableEq " + v + "]"
+	}
+	var inh []string
+	for v := range m.inhabited {
+		inh = append(inh, v)
+	}
+	sort.Strings(inh)
+	for _, v := range inh {
+		binders += " [Inhabited " + v + "]"
 	}
 	for _, p := range m.params {
-		sig += " (" + leanName(p.name) + " : " + p.leanType() + ")"
+		binders += " (" + leanName(p.name) + " : " + p.leanType() + ")"
 	}
-	sig += " : Machine " + tProdN(sts).lean(true) + " " + m.sT.lean(true) + " " + m.dT.lean(true) + " where\n"
+	for _, p := range m.externs {
+		binders += " (" + p.name + " : " + p.leanType() + ")"
+	}
+	sig += binders + " : Machine " + tProdN(sts).lean(true) + " " + m.sT.lean(true) + " " + m.dT.lean(true) + " where\n"
 	sb.WriteString(sig)
 	var inits []expr
 	for _, c := range m.comps {
@@ -577,6 +646,10 @@ func (m *machine) lean() string {
 	sb.WriteString("  onNext " + m.onNext + "\n")
 	sb.WriteString("  onError " + m.onError + "\n")
 	sb.WriteString("  onComplete " + m.onComplete + "\n")
+	if m.upCtx != "" {
+		sb.WriteString("/-- the context `" + m.goName + "` subscribes its source with -/\n")
+		sb.WriteString("def " + m.name + "_up" + binders + " (subscriberCtx : Ctx) : Ctx := " + m.upCtx + "\n")
+	}
 	// the guards as a proposition
 	if len(m.guards) > 0 {
 		var ps []string
